@@ -732,6 +732,15 @@ def contracts(env):
 
 
 def extra(rep, tier, seed, budget):
+    # create_branch publishes a new destination branch only after validating the cascade THAT CONTAINS IT (C20 contract)
+    from pyvc import cli as _cli
+    from specs import c20 as _c20
+    _e20 = _c20.base_env()
+    for _c in _c20.contracts(_e20):
+        if 'create_branch' in _c.label:
+            _c.label = _c.label + ' [C01 new branch validated before publication]'
+            _cli.handle_function(rep, _c20, _e20, _c, budget, _cli.load_lock().get('C01', {}))
+    rep.trusted.extend(_e20.trusted)
     from bounded import integrate as _integ
     _integ.system_histories(rep, tier, seed, ['C01_inclusion'])
 
